@@ -33,11 +33,11 @@ def load(
         with path.open("r") as fp:
             gen = (line.replace(";", ",").replace("\t", ",") for line in fp)
             data = np.genfromtxt(
-                gen, delimiter=",", comments=comments, dtype=np.float64
-            )
+                gen, delimiter=",", comments=comments, dtype=np.float64, ndmin=2
+            )  # ndmin keeps single column images as columns
     else:
         data = np.genfromtxt(
-            path, delimiter=delimiter, comments=comments, dtype=np.float64
+            path, delimiter=delimiter, comments=comments, dtype=np.float64, ndmin=2
         )
 
     data = np.atleast_2d(data)
